@@ -93,14 +93,15 @@ def gen_key_case(rng, typ, key):
         return ["%s=%s" % (key, " ".join(gen_conv.word(rng, "%s=%s" % w) for w in ws))], [x for nv in sorted("%s=%s" % w for w in ws) for x in (opt, nv)]
     # special keys with a simple documented rule
     if key == "Volume" and typ in ("container", "pod", "build"):
-        v = rng.choice(["/src:/dst", "/a:/b:ro", "/a:/b:ro,z", "/a:/b:ro:z", "named:/c", "/only", "named:/c:U:extra"])
-        return ["Volume=%s" % v], ["-v", v]
+        # one to three assignments, each standing for itself: what one entry carries (options!) must not reach the next one
+        vs = [rng.choice(["/src:/dst", "/a:/b:ro", "/a:/b:ro,z", "/a:/b:ro:z", "named:/c", "/only", "named:/c:U:extra", "/c:/d", "anon:/e"]) for _ in range(rng.choice([1, 2, 2, 3]))]
+        return ["Volume=%s" % v for v in vs], [x for v in vs for x in ("-v", v)]
     if key == "Mount":
-        v = rng.choice(["type=tmpfs,tmpfs-size=512M,destination=/t", "type=bind,source=/x,target=/y", "type=volume,source=named,destination=/z,ro", "type=bind,src=/x,dst=/y,relabel=shared"])
-        return ["Mount=%s" % v], ["--mount", v.replace("src=", "source=")]
+        vs = [rng.choice(["type=tmpfs,tmpfs-size=512M,destination=/t", "type=bind,source=/x,target=/y", "type=volume,source=named,destination=/z,ro", "type=bind,src=/x,dst=/y,relabel=shared"]) for _ in range(rng.choice([1, 1, 2]))]
+        return ["Mount=%s" % v for v in vs], [x for v in vs for x in ("--mount", v.replace("src=", "source="))]
     if key == "Network" and typ != "volume":
-        v = rng.choice(["host", "bridge", "mynet:ip=10.0.0.2", "none"])
-        return ["Network=%s" % v], ["--network", v]
+        vs = [rng.choice(["host", "bridge", "mynet:ip=10.0.0.2", "none", "other"]) for _ in range(rng.choice([1, 1, 2, 3]))]
+        return ["Network=%s" % v for v in vs], [x for v in vs for x in ("--network", v)]
     if key in ("AddCapability", "DropCapability"):
         ws = [rng.choice(["CAP_NET_ADMIN", "cap_sys_time", "ALL"]) for _ in range(rng.randint(1, 2))]
         return ["%s=%s" % (key, " ".join(ws))], [x for w in ws for x in (opt, w.lower())]
